@@ -54,6 +54,30 @@ def dollar(address):
     return f'{sheet}!' + ':'.join(parts)
 
 
+def col_index(letters):
+    n = 0
+    for ch in letters:
+        n = n * 26 + (ord(ch.upper()) - 64)
+    return n - 1
+
+
+def range_members(rng_addr):
+    """'Sheet!A1:B2' -> row-major list of rows of addresses (own
+    implementation, independent of the library's resolve_ranges)."""
+    sheet, a = rng_addr.replace('$', '').rsplit('!', 1)
+    p1, _, p2 = a.partition(':')
+    p2 = p2 or p1
+
+    def rc(p):
+        i = 0
+        while i < len(p) and p[i].isalpha():
+            i += 1
+        return col_index(p[:i]), int(p[i:]) - 1
+    (c1, r1), (c2, r2) = rc(p1), rc(p2)
+    return [[addr(sheet, c, r) for c in range(min(c1, c2), max(c1, c2) + 1)]
+            for r in range(min(r1, r2), max(r1, r2) + 1)]
+
+
 def dict_readable(v):
     """What ModelCompiler.read_and_parse_dict accepts as a constant."""
     if isinstance(v, (bool, int, float)):
